@@ -155,6 +155,93 @@ Proof.
 Qed.
 Print Assumptions C13_unit_counts.
 
+(* index_within_clusters (the cumsum trick, including pandas' length check): when at least one
+   spike is valid the computation succeeds and row j gets the number of earlier rows of the same
+   cluster, i.e. its position inside its cluster. *)
+Theorem C13_index_within_clusters : forall choose P, guards P -> choose_ok choose ->
+  table choose P <> [] ->
+  exists l, iwc (sorted_table choose P) = Some l /\ length l = length (sorted_table choose P) /\
+    forall j, (j < length (sorted_table choose P))%nat ->
+      nth j l 0 = count_if (fun x => x =? r_cluster (nth j (sorted_table choose P) drow))
+                           (firstn j (map r_cluster (sorted_table choose P))).
+Proof.
+  intros choose P (H1 & H2 & H3 & H4 & H5 & H6 & H7) Hc.
+  exact (iwc_ST choose P H1 H2 H3 H4 H5 Hc H6 H7).
+Qed.
+Print Assumptions C13_index_within_clusters.
+
+(* aggregate_by_clusters / templates: the groups are the clusters PRESENT in the table in
+   ascending order (template i belongs to the i-th of them, as in the loader's df_clusters);
+   each group's count is the number of its rows and the memmap slice
+   [first_index, last_index + 1) the template is computed from is exactly the set of rows of
+   that cluster. *)
+Theorem C13_template_ranges : forall choose P, guards P -> choose_ok choose ->
+  let ST := sorted_table choose P in
+  map (fun g => fst (fst (fst g))) (groups ST) = zunique (map r_cluster ST) /\
+  template_ranges choose P = map (fun g => (g_first g, g_last g + 1)) (groups ST) /\
+  forall g, In g (groups ST) ->
+    let u := fst (fst (fst g)) in
+    In u (map r_cluster ST) /\
+    g_count g = count_if (fun x => x =? u) (map r_cluster ST) /\
+    forall k, (k < length ST)%nat ->
+      (g_first g <= Z.of_nat k < g_last g + 1 <-> r_cluster (nth k ST drow) = u).
+Proof.
+  intros choose P (H1 & H2 & H3 & H4 & H5 & H6 & H7) Hc ST. split; [|split].
+  - exact (groups_ST_clusters choose P H1 H2 H3 H4 H5 Hc H6 H7).
+  - reflexivity.
+  - intros g Hg.
+    destruct (groups_ST choose P H1 H2 H3 H4 H5 Hc H6 H7 g Hg) as (A & B & C).
+    split; [exact A|]. split; [exact B|]. intros k Hk. split; intros H; [apply (C k Hk); lia|apply (C k Hk) in H; lia].
+Qed.
+Print Assumptions C13_template_ranges.
+
+(* WaveformsLoader.load_waveforms, row selection (any table, any labels / indices): the rows
+   returned are, in ascending order, exactly those whose cluster is among the labels (default:
+   all clusters of the table) and whose index_within_clusters is among the indices (default: all). *)
+Theorem C13_loader_selection : forall tb iw labels indices, length iw = length tb ->
+  let labs := match labels with Some l => l | None => map (fun g => fst (fst (fst g))) (groups tb) end in
+  StronglySorted Z.lt (load_rows tb iw labels indices) /\
+  forall k, In k (load_rows tb iw labels indices) <->
+    0 <= k < zlen tb /\ In (r_cluster (znth drow tb k)) labs /\
+    match indices with None => True | Some ix => In (znth 0 iw k) ix end.
+Proof. exact load_rows_spec. Qed.
+Print Assumptions C13_loader_selection.
+
+(* ... and what it returns for a selected row k is what the four files hold for row k: the
+   window of the spike of table row k, that table row, its position inside its cluster, and the
+   neighbourhood of its peak channel. *)
+Theorem C13_loader_returns_saved : forall V (src : Z -> Z -> V) choose P mem iw cm labels indices,
+  guards P -> choose_ok choose -> zlen (c_geom P) <= 32768 ->
+  traces V src choose P = Some mem -> iwc (sorted_table choose P) = Some iw ->
+  chan_map choose P = Some cm ->
+  load_waveforms V mem (sorted_table choose P) iw cm labels indices =
+  map (fun k => let row := znth drow (sorted_table choose P) k in
+                (Some (window V src P (r_sample row) (r_chan row)), row,
+                 count_if (fun x => x =? r_cluster row)
+                          (firstn (Z.to_nat k) (map r_cluster (sorted_table choose P))),
+                 znth [] (cidx P) (r_chan row)))
+      (load_rows (sorted_table choose P) iw labels indices).
+Proof.
+  intros V src choose P mem iw cm labels indices (H1 & H2 & H3 & H4 & H5 & H6 & H7) Hc.
+  exact (loader_saved V src choose P H1 H2 H3 H4 H5 Hc H6 H7 mem iw cm labels indices).
+Qed.
+Print Assumptions C13_loader_returns_saved.
+
+(* The hypothesis trough_offset <= chunk size (with more than one chunk) cannot be dropped:
+   with chunk size 8 < trough_offset 10 the second job's snippet start s0 - trough_offset is
+   negative, the Python slice wraps to the end of the file, the snippet is empty and the job
+   raises (model: None).  Outside the property's quantifier (chunk sizes 500..10000, default
+   trough_offset 42); every other guard holds for this input. *)
+Definition exSmallChunk : cfg :=
+  mkCfg 100 2 10 16 2 8 40000 1 [(0, 0); (0, 20)] [(12, 1, 0)].
+Theorem C13_chunk_below_trough_offset_raises :
+  1 <= c_ns exSmallChunk /\ 1 <= c_size exSmallChunk /\ 0 <= c_to exSmallChunk <= c_L exSmallChunk /\
+  c_size exSmallChunk < c_to exSmallChunk /\ 1 < nchunks exSmallChunk /\
+  map (fun r => r_sample r) (table (fun _ a _ => a) exSmallChunk) = [12] /\
+  traces Z (fun ch s => 10 * s + ch) (fun _ a _ => a) exSmallChunk = None.
+Proof. vm_compute. repeat split; congruence. Qed.
+Print Assumptions C13_chunk_below_trough_offset_raises.
+
 (* ---- the hypotheses are satisfiable on a non-trivial concrete input ---- *)
 Definition exP : cfg :=
   mkCfg 1000 4 3 8 2 300 40000 1 [(0, 0); (0, 150); (0, 300); (0, 450)]
@@ -175,3 +262,14 @@ Proof. vm_compute. reflexivity. Qed.
 
 Example ex_chan_index : channel_index (c_geom exP) 40000 1 4 = [[0; 1; 4]; [0; 1; 2]; [1; 2; 3]; [2; 3; 4]].
 Proof. vm_compute. reflexivity. Qed.
+
+(* Observation recorded in the notes (not a clause of the property): the templates follow the
+   clusters present in the table, not np.unique(spike_clusters).  Unit 2 below has no valid
+   spike: unit_ids = [1; 2; 3] but the groups (template rows 0, 1) are clusters 1 and 3. *)
+Definition exGap : cfg :=
+  mkCfg 1000 2 3 8 2 300 40000 1 [(0, 0); (0, 20)] [(1, 2, 0); (100, 1, 0); (200, 3, 1); (999, 2, 1)].
+Example ex_templates_follow_present_clusters :
+  unit_ids exGap = [1; 2; 3] /\
+  map (fun g => fst (fst (fst g))) (groups (sorted_table ex_choose exGap)) = [1; 3] /\
+  template_ranges ex_choose exGap = [(0, 1); (1, 2)].
+Proof. vm_compute. repeat split. Qed.
